@@ -3,6 +3,20 @@
 CHECKS = {
     "C01": {"pkg": "wire", "run": "^TestC01",
             "quick": {"shards": 1, "timeout": 600}, "thorough": {"shards": 16, "timeout": 2400}},
+    "C02": {"pkg": "wire", "run": "^TestC02",
+            "quick": {"shards": 1, "timeout": 600}, "thorough": {"shards": 16, "timeout": 2400}},
+    "C05": {"pkg": "wire", "run": "^TestC05",
+            "quick": {"shards": 1, "timeout": 600}, "thorough": {"shards": 16, "timeout": 2400}},
+    "C06": {"pkg": "wire", "run": "^TestC06",
+            "quick": {"shards": 1, "timeout": 600}, "thorough": {"shards": 16, "timeout": 2400}},
+    "C07": {"pkg": "wire", "run": "^TestC07",
+            "quick": {"shards": 1, "timeout": 600}, "thorough": {"shards": 16, "timeout": 2400}},
+    "C08": {"pkg": "wire", "run": "^TestC08",
+            "quick": {"shards": 1, "timeout": 600}, "thorough": {"shards": 16, "timeout": 2400}},
+    "C09": {"pkg": "wire", "run": "^TestC09",
+            "quick": {"shards": 1, "timeout": 600}, "thorough": {"shards": 16, "timeout": 2400}},
+    "C20": {"pkg": "wire", "run": "^TestC20",
+            "quick": {"shards": 1, "timeout": 600}, "thorough": {"shards": 16, "timeout": 2400}},
 }
 
 ASSUMPTIONS = {
